@@ -22,6 +22,7 @@ MonInit(cfg) ==
     rounds |-> <<>>,          \* explicit rounds requested in this tick (late subscribers of the tick may be included)
     moved |-> {},             \* endpoints whose membership changed in this tick
     phase |-> "off", left |-> 0,      \* cyclic task: off / wait (for clients) / sleep (left ticks) ; loose after an ambiguous tick
+    wokeNow |-> FALSE,        \* the cyclic task was woken (wait -> sleep) in this very tick
     cycDue |-> FALSE, cycGot |-> {},   \* the cyclic round is due in this tick; <<endpoint, event>> it has reached so far
     nakOwed |-> 0,
     bad |-> "", at |-> 0, n |-> 0 ]
@@ -39,9 +40,12 @@ Sub(m, ep) ==
   LET m1 == [m EXCEPT !.subs = @ \cup {ep}, !.moved = @ \cup {ep}]
       m2 == Expect(m1, ep, Events(m), TRUE)                      \* initial notification: every event, current value
       m3 == Late(m2, ep, m.rounds)
-  IN IF m.phase = "wait" THEN [m3 EXCEPT !.phase = "sleep", !.left = m.cfg.interval] ELSE m3     \* has_clients wakes the cyclic task
+  IN IF m.phase = "wait" THEN [m3 EXCEPT !.phase = "sleep", !.left = m.cfg.interval, !.wokeNow = TRUE] ELSE m3     \* has_clients wakes the cyclic task
+\* (the last subscriber leaves in the tick in which the first one woke the cyclic task: whether the task saw the event set --
+\*  it may not even have reached its wait() yet -- cannot be told from outside: loose until a round resynchronises)
 Unsub(m, ep) ==
   [m EXCEPT !.subs = @ \ {ep}, !.moved = @ \cup {ep},
+            !.phase = IF m.wokeNow /\ m.subs \ {ep} = {} THEN "loose" ELSE @,
             !.pend = [i \in DOMAIN @ |-> IF @[i].dst = ep THEN [@[i] EXCEPT !.must = FALSE] ELSE @[i]]]
 SetVal(m, ev, v) ==
   [m EXCEPT !.values[ev] = v, !.pend = [i \in DOMAIN @ |-> IF @[i].ev = ev THEN [@[i] EXCEPT !.vals = @ \cup {v}] ELSE @[i]]]
@@ -83,9 +87,16 @@ Ntx(m, e) ==
 Idle(m) ==
   IF \E i \in DOMAIN m.pend : m.pend[i].must THEN Fail(m, "notification_missing")
   ELSE IF m.nakOwed > 0 THEN Fail(m, "bad_subscription_not_refused")
-  ELSE LET m1 == [m EXCEPT !.pend = <<>>] IN IF m.cycDue THEN CycSettle(m1) ELSE m1
+  ELSE LET m1 == [m EXCEPT !.pend = <<>>] IN
+       IF m.cycDue THEN CycSettle(m1)
+       \* loose: a complete round to exactly the current subscribers in a tick without membership changes resynchronises
+       ELSE IF m.phase = "loose" /\ m.cycGot # {}
+       THEN IF m.moved = {} /\ m.subs # {} /\ m.cycGot = {<<ep, Events(m)[i]>> : ep \in m.subs, i \in DOMAIN Events(m)}
+            THEN [m1 EXCEPT !.phase = "sleep", !.left = m.cfg.interval, !.cycGot = {}]
+            ELSE [m1 EXCEPT !.cycGot = {}]
+       ELSE m1
 Adv(m0, d) ==
-  LET m == [Idle(m0) EXCEPT !.rounds = <<>>, !.moved = {}] IN
+  LET m == [Idle(m0) EXCEPT !.rounds = <<>>, !.moved = {}, !.wokeNow = FALSE] IN
   IF m.phase # "sleep" THEN m
   ELSE IF m.left < d THEN Fail(m, "cyclic_round_missing")
   ELSE IF m.left = d THEN [m EXCEPT !.left = 0, !.cycDue = TRUE, !.phase = "round"]
@@ -105,7 +116,8 @@ MonStep(m0, e) ==
          IN [m EXCEPT !.nxt = Put(@, e.dst, ((cur - 1 + e.n) % m.cfg.maxId) + 1)]
     [] e.k = "out" /\ e.op = "nak" -> IF m.nakOwed > 0 THEN [m EXCEPT !.nakOwed = @ - 1] ELSE Fail(m, "valid_subscription_refused")
     [] e.k = "out" /\ e.op = "ntx" -> IF m.phase = "loose" /\ ~\E i \in DOMAIN m.pend : m.pend[i].dst = e.dst /\ m.pend[i].ev = e.ev
-                                      THEN [m EXCEPT !.nxt = Put(@, e.dst, Step1(m, IF e.dst \in DOMAIN @ THEN @[e.dst] ELSE 1))]
+                                      THEN [m EXCEPT !.nxt = Put(@, e.dst, Step1(m, IF e.dst \in DOMAIN @ THEN @[e.dst] ELSE 1)),
+                                                     !.cycGot = IF <<e.dst, e.ev>> \in @ THEN {<<"", 0>>} ELSE @ \cup {<<e.dst, e.ev>>}]
                                       ELSE Ntx(m, e)
     [] e.k = "idle" -> Idle(m)
     [] e.k = "adv"  -> Adv(m, e.d)
